@@ -486,9 +486,13 @@ def null_from(
     node: int,
 ) -> list[int]:
     result = []
+    scanned = set()
 
     def scan(n: int) -> None:
         nonlocal result
+        if n in scanned:
+            return
+        scanned.add(n)
         edges = nfa[n]
         if len(edges) == 1 and not edges[0].get("term"):
             return scan(cast(int, edges[0]["to"]))
